@@ -91,6 +91,19 @@ def check(run, model, tier):
     jl = [c for c in shallow_calls(loads.node) if dotted(c.func) in ('json.loads',)]
     if len(jl) != 1:
         raise AnalysisError('Event.loads: expected one json.loads call, found %d' % len(jl))
+    # the codec is trusted to be an inverse pair only in its plain form: a decoding/encoding hook rewrites the payload itself
+    run.rule('TABLE.json-plain', 'json.dumps / json.loads are called without hooks that rewrite values (object_hook, object_pairs_hook, cls, parse_*, default)')
+    HOOKS = {'object_hook', 'object_pairs_hook', 'cls', 'parse_float', 'parse_int', 'parse_constant', 'default'}
+    n_codec = 0
+    for f_, calls_ in ((dumps, jd), (loads, jl)):
+        for c_ in calls_:
+            n_codec += 1
+            hooks = sorted(k.arg for k in c_.keywords if k.arg in HOOKS or k.arg is None)
+            run.inst('TABLE.json-plain', f_, '%s without value-rewriting hooks' % norm(c_.func), not hooks,
+                     '' if not hooks else ('%s is called with %s: the hook is applied to every nested JSON object/number, not only to the envelope, so a payload that happens to contain '
+                                           'such a value (for example a dict with the envelope\'s own keys) does not come back equal' % (norm(c_.func), ', '.join(h or '**kwargs' for h in hooks))),
+                     node=c_, obligation=True)
+    run.floor('json codec calls in Event.dumps/loads', n_codec, 2)
     dvar = [k for k, v in ldefs.items() if any(x is jl[0] for x in v)]
     if len(dvar) != 1:
         raise AnalysisError('Event.loads: the decoded mapping is not bound to one local')
